@@ -4,6 +4,8 @@ import Heph.Spec.Subtyping
 import Heph.Proofs.TypesBasic
 import Heph.Proofs.TypesSound
 import Heph.Proofs.TypesFuel
+import Heph.Proofs.TypesMono
+import Heph.Proofs.TypesFlat
 /-!
 # C06 — the subtyping judgement is sound; exactness fails (non-transitivity witness)
 
@@ -56,8 +58,8 @@ theorem contained_sound (U : Ty → Prop) (hU : ClosedU U) (fuel : Nat) (a b tp 
 /-- soundness of the top-level `s.is_subtype(t)`, in the least universe of the two types
     (hence, by `SubT.mono`, in every universe that contains them) -/
 theorem isSubtype_sound (s t : Ty) (hs : wf s = true) (ht : wf t = true)
-    (h : isSubtype s t = .yes) : SubT (pairU s t) s t :=
-  isSub_sound _ (closedU_pairU s t) _ s t (pairU_left s t) (pairU_right s t) hs ht h
+    (h : isSubtype s t = .yes) : SubT (univ [s, t]) s t :=
+  isSub_sound _ (closedU_univ [s, t]) _ s t (univ_mem (by simp)) (univ_mem (by simp)) hs ht h
 
 theorem isSubtype_sound_in (U : Ty → Prop) (hU : ClosedU U) (s t : Ty) (us : U s) (ut : U t)
     (hs : wf s = true) (ht : wf t = true) (h : isSubtype s t = .yes) : SubT U s t :=
@@ -68,7 +70,7 @@ theorem isSubtype_sound_in (U : Ty → Prop) (hU : ClosedU U) (s t : Ty) (us : U
     of the same primitive element type. -/
 theorem assignable_sound (extra : List (String × String)) (s t : Ty) (hs : wf s = true)
     (ht : wf t = true) (h : isAssignable extra s t = .yes) :
-    SubT (pairU s t) s t ∨
+    SubT (univ [s, t]) s t ∨
     (∃ c nm nt p ss c' nm' nt' p' ss', s = builtin c nm nt p ss ∧ t = builtin c' nm' nt' p' ss' ∧
       (c, c') ∈ extra) ∨
     (∃ nm con a as ss nm' con' b bs ss', s = param nm con (a :: as) ss ∧
@@ -126,11 +128,40 @@ theorem isSubtype_fuel (s t : Ty) (hs : reg s = true) (ht : reg t = true) :
     isSubtype s t ≠ .fuel :=
   isSub_fuel _ s t hs ht (Nat.le_refl _)
 
+/-- the unconditional fuel-adequacy statement — false, see `isSubtype_fuel_counterexample` -/
+def isSubtype_fuel_all : Prop := ∀ s t, isSubtype s t ≠ .fuel
+
 /-- Regularity cannot be dropped: an instantiation whose `t_constructor` is not a type
     constructor is not `==` to itself, the filter `st != self` of `SimpleClassifier.is_subtype`
-    keeps the receiver, and the recursion never ends (`RecursionError` in Python, `.fuel` here). -/
-theorem isSubtype_fuel_needs_reg :
+    keeps the receiver, and the recursion never ends — the real code would recurse forever
+    (`RecursionError`), the model answers `.fuel`.  Such types are never built:
+    `ParameterizedType.__init__` deep-copies a `TypeConstructor` (and reads its
+    `type_parameters`), so every instantiation node is regular. -/
+theorem isSubtype_fuel_counterexample :
     isSubtype (simple "A" [param "P" .nothing [] []]) (simple "B" []) = .fuel := by decide
+
+theorem isSubtype_fuel_all_false : ¬ isSubtype_fuel_all :=
+  fun h => h _ _ isSubtype_fuel_counterexample
+
+/-- a definite answer does not change with more fuel -/
+theorem isSub_fuel_mono (f k : Nat) (s t : Ty) (h : isSub f s t ≠ .fuel) :
+    isSub (f + k) s t = isSub f s t := isSub_mono_add f k s t h
+
+/-- on regular types every fuel from `fuelFor s t` on computes `isSubtype s t`: the model's
+    answer does not depend on the constant chosen in `fuelFor` -/
+theorem isSub_fuel_indep (f : Nat) (s t : Ty) (hs : reg s = true) (ht : reg t = true)
+    (hf : fuelFor s t ≤ f) : isSub f s t = isSubtype s t := by
+  obtain ⟨k, rfl⟩ := Nat.exists_eq_add_of_le hf
+  exact isSub_mono_add _ k s t (isSubtype_fuel s t hs ht)
+
+/-- a definite answer at any fuel is the answer of `isSubtype` -/
+theorem isSub_eq_isSubtype (f : Nat) (s t : Ty) (hs : reg s = true) (ht : reg t = true)
+    (h : isSub f s t ≠ .fuel) : isSub f s t = isSubtype s t := by
+  rcases Nat.le_total f (fuelFor s t) with hle | hle
+  · obtain ⟨k, hk⟩ := Nat.exists_eq_add_of_le hle
+    unfold isSubtype
+    rw [hk, isSub_mono_add f k s t h]
+  · exact isSub_fuel_indep f s t hs ht hle
 
 /-! ## 3. Bare type constructors -/
 
@@ -146,12 +177,13 @@ theorem tconIsSub_sound (f : Nat) (c nm : String) (ps ss : List Ty) (t : Ty)
     exact ⟨m, List.mem_of_find?_eq_some hfind, by simpa using List.find?_some hfind⟩
 
 /-- … which is a declarative supertype of the constructor (no well-formedness needed) -/
-theorem tconIsSub_subT (f : Nat) (c nm : String) (ps ss : List Ty) (t : Ty)
-    (h : isSub (f + 1) (tcon c nm ps ss) t = .yes) : SubT (tcon c nm ps ss) t := by
+theorem tconIsSub_subT (U : Ty → Prop) (hU : ClosedU U) (f : Nat) (c nm : String)
+    (ps ss : List Ty) (t : Ty) (us : U (tcon c nm ps ss))
+    (h : isSub (f + 1) (tcon c nm ps ss) t = .yes) : SubT U (tcon c nm ps ss) t := by
   obtain ⟨m, hm, hbeq⟩ := tconIsSub_sound f c nm ps ss t h
-  rcases closure_sub _ m hm with rfl | hsub
+  rcases closure_sub hU _ m us hm with rfl | hsub
   · exact SubT.reflR hbeq
-  · exact SubT.trans hsub (SubT.reflR hbeq)
+  · exact SubT.trans (closedU_closure hU _ m us hm) hsub (SubT.reflR hbeq)
 
 /-! ## 4. Non-vacuity: a concrete class table
 
@@ -203,7 +235,7 @@ example : isSubtype boundedY clsA = .yes := by decide
 example : isSubtype fooC (tconNew baseC [tconNew lstC [tX]]) = .yes := by decide
 example : isSubtype ktNothing s3 = .yes := by decide
 /-- … and, by the soundness theorem, derivable in the declarative relation -/
-example : SubT (tconNew lstC [clsB]) (tconNew lstC [clsA]) :=
+example : SubT (univ [tconNew lstC [clsB], tconNew lstC [clsA]]) (tconNew lstC [clsB]) (tconNew lstC [clsA]) :=
   isSubtype_sound _ _ (by decide) (by decide) (by decide)
 
 /-- a reversed variance is answered no: covariant `Lst`, contravariant `Sink`, invariant `Base`,
@@ -245,11 +277,13 @@ def groundArgs : List Ty → Bool
   | x :: xs => ground x && groundArgs xs
 end
 
-/-- **C06, exactness — FULL statement, false of the code** (`isSub_exact_counterexample`): on
-    well-formed ground types the answer coincides with the declarative relation. -/
+/-- **C06, exactness — FULL statement, false of the code** (`isSub_exact_counterexample`): in
+    every consistent universe (the types over one completed class table), on well-formed ground
+    types the answer coincides with the declarative relation. -/
 def isSub_exact : Prop :=
-  ∀ s t, wf s = true → wf t = true → ground s = true → ground t = true →
-    (isSubtype s t = .yes ↔ SubT s t)
+  ∀ (U : Ty → Prop), ClosedU U → Consistent U →
+    ∀ s t, U s → U t → wf s = true → wf t = true → ground s = true → ground t = true →
+      (isSubtype s t = .yes ↔ SubT U s t)
 
 /-- transitivity of the answers on ground types — FULL statement, false of the code -/
 def isSub_trans : Prop :=
@@ -269,6 +303,10 @@ theorem isSub_trans_counterexample :
 theorem witness_hyps : wf s1 = true ∧ wf s2 = true ∧ wf s3 = true ∧
     ground s1 = true ∧ ground s2 = true ∧ ground s3 = true := by decide
 
+/-- the universe of the witness (all sub-terms of the three types) is consistent -/
+theorem witness_consistent : Consistent (univ [s1, s2, s3]) :=
+  consistent_of_consistentL (by decide)
+
 theorem isSub_trans_false : ¬ isSub_trans := by
   intro h
   obtain ⟨w1, w2, w3, g1, g2, g3⟩ := witness_hyps
@@ -278,18 +316,63 @@ theorem isSub_trans_false : ¬ isSub_trans := by
   cases this
 
 /-- the declarative relation does relate the outer pair (by `trans`, through soundness) … -/
-theorem witness_subT : SubT s1 s3 := by
+theorem witness_subT : SubT (univ [s1, s2, s3]) s1 s3 := by
   obtain ⟨w1, w2, w3, _⟩ := witness_hyps
   obtain ⟨h12, h23, _⟩ := isSub_trans_counterexample
-  exact SubT.trans (isSubtype_sound _ _ w1 w2 h12) (isSubtype_sound _ _ w2 w3 h23)
+  have hU := closedU_univ [s1, s2, s3]
+  have u1 : univ [s1, s2, s3] s1 := univ_mem (by simp)
+  have u2 : univ [s1, s2, s3] s2 := univ_mem (by simp)
+  have u3 : univ [s1, s2, s3] s3 := univ_mem (by simp)
+  exact SubT.trans u2 (isSubtype_sound_in _ hU _ _ u1 u2 w1 w2 h12)
+    (isSubtype_sound_in _ hU _ _ u2 u3 w2 w3 h23)
 
 /-- … so the code's judgement is incomplete there: exactness fails -/
 theorem isSub_exact_counterexample : ¬ isSub_exact := by
   intro h
   obtain ⟨w1, _, w3, g1, _, g3⟩ := witness_hyps
-  have := (h s1 s3 w1 w3 g1 g3).2 witness_subT
+  have := (h _ (closedU_univ [s1, s2, s3]) witness_consistent s1 s3 (univ_mem (by simp))
+    (univ_mem (by simp)) w1 w3 g1 g3).2 witness_subT
   rw [isSub_trans_counterexample.2.2] at this
   cases this
+
+/-- **exactness, the part that holds**: for a receiver built from (non-bottom) built-ins and
+    non-generic classes only (`flat`), in a consistent universe, the answer of `is_subtype`
+    coincides with the declarative relation — against every well-formed `t` of the universe.
+    Missing from the full statement: receivers that are instantiations of generic classes
+    (where it is false, `isSub_exact_counterexample`). -/
+theorem isSub_exact_partial (U : Ty → Prop) (hU : ClosedU U) (hC : Consistent U) (s t : Ty)
+    (us : U s) (ut : U t) (hs : flat s = true) (ht : wf t = true) :
+    isSubtype s t = .yes ↔ SubT U s t :=
+  (flat_exact hU hC us ut hs ht).symm
+
+/-- hence transitivity of the answers on the non-generic fragment -/
+theorem isSub_trans_partial (U : Ty → Prop) (hU : ClosedU U) (hC : Consistent U) (s u t : Ty)
+    (us : U s) (uu : U u) (ut : U t) (hs : flat s = true) (hu : flat u = true) (ht : wf t = true)
+    (h1 : isSubtype s u = .yes) (h2 : isSubtype u t = .yes) : isSubtype s t = .yes :=
+  (isSub_exact_partial U hU hC s t us ut hs ht).2
+    (SubT.trans uu ((isSub_exact_partial U hU hC s u us uu hs (flat_wf u hu)).1 h1)
+      ((isSub_exact_partial U hU hC u t uu ut hu ht).1 h2))
+
+/-- the declarative relation of a consistent universe is not trivial: `class A : Any` is not
+    below `String` (without the universe restriction on `trans` it would be, through a foreign
+    copy of `Any`) -/
+theorem subT_nontrivial : ¬ SubT (univ [clsA, stringT]) clsA stringT := by
+  intro h
+  have := (isSub_exact_partial _ (closedU_univ _) (consistent_of_consistentL (by decide))
+    clsA stringT (univ_mem (by simp)) (univ_mem (by simp)) (by decide) (by decide)).2 h
+  revert this
+  decide
+
+/-- a foreign copy of `Any` whose stored supertype is `String` -/
+def anyLiar : Ty := builtin "<class 'src.ir.kotlin_types.AnyType'>" "Any" false false [stringT]
+
+/-- … and in the *unrestricted* universe it is: this is why `SubT` carries a universe -/
+theorem subT_trivial_without_universe : SubT (fun _ => True) clsA stringT :=
+  SubT.trans (u := simple "A" [anyLiar]) trivial (SubT.refl (by decide))
+    (SubT.trans (u := anyLiar) trivial (SubT.nominal (by simp [sups])) (SubT.nominal (by simp [sups, anyLiar])))
+
+example : flat clsB = true ∧ flat stringT = true ∧ Consistent (univ [clsB, clsA, stringT]) :=
+  ⟨by decide, by decide, consistent_of_consistentL (by decide)⟩
 
 /-! ## 6. Reflexivity (the part that holds) -/
 
